@@ -196,7 +196,12 @@ def validateTransfer (s : State) (frm to : Nat) (amount : Int) : Except Err Stat
   let s ← verifyIdentity s to
   queryCanTransfer s frm to amount
 
-/-- `RWA::transfer` -/
+/-- `RWA::transfer`. The contract entry point `FungibleToken::transfer(from, to: MuxedAddress, amount)`
+resolves through `type ContractType = RWA` to `<RWA as ContractOverrides>::transfer`, which is
+`RWA::transfer(e, from, &to.address(), amount)`: a muxed destination (account + id) is reduced to
+its underlying account before anything else happens and the id is dropped (the emitted `transfer`
+event carries no `to_muxed_id`). So `to` below is the underlying address; the harness drives the
+entry point with plain and with muxed destinations. -/
 def transfer (s : State) (auth : List Nat) (frm to : Nat) (amount : Int) : Except Err State := do
   requireAuth auth frm
   let s ← validateTransfer s frm to amount
